@@ -519,7 +519,9 @@ func (c *c09ctx) analyseFunc(fn *ssa.Function) {
 	r.Analysed(fn.String())
 	ps := NewPathSim(prog)
 	ps.Havoc = c.havoc
-	ps.Inline = func(callee *ssa.Function) bool { return isPureReflectHelper(prog, callee) || c.inlined[callee] }
+	ps.Inline = func(callee *ssa.Function) bool {
+		return isPureReflectHelper(prog, callee) || c.inlined[callee] || coercionWrapper(c.a, callee)
+	}
 	ps.MaxDepth = 4
 
 	ps.OnInstr = func(f *ssa.Function, st *pstate, ins ssa.Instruction) {
@@ -1963,4 +1965,23 @@ func checkComparatorCalls(r *Run, prog *Program, a *Anchors, roots map[*ssa.Func
 	c09SiteKinds = map[string]bool{"comparator-call": true}
 	checkPanicSites(r, prog, a, "c09", roots, nil, false, 1)
 	c09SiteKinds = nil
+}
+
+// coercionWrapper: f has the coercion table's signature and hands the job on to the table (it adds a message around the
+// error): the table call is what the rules look at, so the wrapper is interpreted in place.
+func coercionWrapper(a *Anchors, f *ssa.Function) bool {
+	if a.CoerceTab == nil || f == nil || f == a.CoerceTab || len(f.Blocks) == 0 {
+		return false
+	}
+	if !types.Identical(f.Signature.Results(), a.CoerceTab.Signature.Results()) || !types.Identical(f.Signature.Params(), a.CoerceTab.Signature.Params()) {
+		return false
+	}
+	for _, b := range f.Blocks {
+		for _, ins := range b.Instrs {
+			if c, ok := ins.(*ssa.Call); ok && c.Call.StaticCallee() == a.CoerceTab {
+				return true
+			}
+		}
+	}
+	return false
 }
